@@ -495,7 +495,7 @@ func fromLoc(loc string) func(ssa.Value) bool {
 // call of a (b); the entry location is where the result of nextPath on that
 // channel - or on a field initialised from it - is stored.
 func walkerCells(c *Ctx, loop *ssa.Function) (aCell, bCell string) {
-	dwd := loop.Parent()
+	dwd := c.P.Encloser(loop)
 	if dwd == nil {
 		return
 	}
